@@ -20,7 +20,7 @@ def build_extract():
 
 def gen_cases(rng, tier):
     cases = []
-    n = 200 if tier == 'quick' else 4000
+    n = 200 if tier == 'quick' else 40000
     for i in range(n):
         st = ml.gen_module(rng, rng.choice([0, 1, 4, 12, 30, 60]), with_new=rng.choice([0, 0.3]),
                            kinds=rng.choice([None, None, [2, 11], [0, 1, 2, 10, 11]]))
